@@ -143,6 +143,24 @@ impl Neg for SymI<true> {
         SymI::<true>::ranged(mk(Node::Neg(self.0)), "neg")
     }
 }
+/// The inherent method surface of the primitive integers that vek's integer macro bodies (hook H1) may reach for
+/// (`Ord` already gives `min`, `max`, `clamp`). Every arithmetic step keeps its "stays in the type's range" obligation.
+#[allow(dead_code)]
+impl<const S: bool> SymI<S> {
+    pub fn rem_euclid(self, rhs: Self) -> Self {
+        let r = self % rhs;
+        if r < Self::konst(0) { if rhs < Self::konst(0) { r - rhs } else { r + rhs } } else { r }
+    }
+    pub fn div_euclid(self, rhs: Self) -> Self {
+        let q = self / rhs;
+        if self % rhs < Self::konst(0) { if rhs > Self::konst(0) { q - Self::konst(1) } else { q + Self::konst(1) } } else { q }
+    }
+}
+#[allow(dead_code)]
+impl SymI<true> {
+    pub fn abs(self) -> Self { if self < Self::konst(0) { -self } else { self } }
+    pub fn signum(self) -> Self { if self < Self::konst(0) { Self::konst(-1) } else if self > Self::konst(0) { Self::konst(1) } else { Self::konst(0) } }
+}
 impl<const S: bool> AddAssign for SymI<S> { fn add_assign(&mut self, o: Self) { *self = *self + o; } }
 impl<const S: bool> SubAssign for SymI<S> { fn sub_assign(&mut self, o: Self) { *self = *self - o; } }
 impl<const S: bool> MulAssign for SymI<S> { fn mul_assign(&mut self, o: Self) { *self = *self * o; } }
